@@ -89,7 +89,34 @@ def bounds(tier):
                            "single_paragraphs": sum(len(long_specs(L, tier)) for L in long_lengths(tier)),
                            "configurations": "6 forms x {plain, comments at all boundaries} x {Deb822, iter_paragraphs} "
                                              "+ armor (%s) x 6 forms x {Deb822, Dsc, Changes}"
-                                             % ("1 Hash header" if tier == "quick" else "0/1/2 Hash headers")}}
+                                             % ("1 Hash header" if tier == "quick" else "0/1/2 Hash headers")},
+            "beyond_the_small_scope": {
+                "count_ladder_fields_per_paragraph": {
+                    "n": "every n in 1..40 and %s (2500 / 2501 / 5000 dropped: more than a second per case)" % SCALE_FIELDS_BIG,
+                    "paragraph": "n fields, names of four shapes, six kinds of value (single-line, ':x', multi-line, empty, 'a:b', "
+                                 "empty first line + continuation), alone or with one more field 'A' (multi-line, a continuation "
+                                 "line 'A: b') first / middle / last (n > 40: alone, middle)",
+                    "dumps": "dump() with the configurations of the single-paragraph pass (6 forms x {plain, comments at all "
+                             "boundaries} x {Deb822, iter_paragraphs}, armor x 6 forms x 3 classes, re-dump, re-order) and "
+                             "dump(fd) binary, dump(fd, text_mode=True), str(), bytes() read back"},
+                "count_ladder_continuation_lines": {
+                    "n": "every n in 1..40 and %s" % SCALE_BIG,
+                    "arrangements": "plain; the 8 continuation-line kinds cycling; one line of kind ' e: f', ' #g', '  h  ' "
+                                    "or the armor-like line as the first / middle / last of n plain ones (n > 40: three of these)",
+                    "shapes": "single field / between two other fields; first line v, empty or ':x'"},
+                "count_ladder_paragraphs": {
+                    "n": "every n in 1..40 and %s (2500+ dropped: more than a second per case)" % SCALE_PARS_BIG,
+                    "document": "1-, 2- and 3-field paragraphs in turn, alone or with an 8-field paragraph first / middle / last; "
+                                "separator 1 or 2 blank lines (n > 40: 1); 6 forms x {plain, comments at all boundaries}"},
+                "size_ladder": {
+                    "L": SCALE_SIZES + (SCALE_SIZES_THOROUGH if tier != "quick" else []),
+                    "not_in_quick": SCALE_SIZES_THOROUGH if tier == "quick" else [],
+                    "shapes": "the physical line 'A: ...' resp. the continuation line ' ...' is L characters long",
+                    "content": "plain filler (one letter; words of 7 letters and a blank) and one token of %s" % [n for n, _t in SCALE_TOKENS],
+                    "places": "offsets in the dump: behind the start of the long line, at its end, and for every block size of %s "
+                              "inside: token starting at b-1, b, b+1 and ending at b (L >= 65535: the largest block size only, "
+                              "tokens %s)" % (SCALE_BLOCKS, list(SCALE_TOKENS_CONT)),
+                    "cases": sum(len(scale_cases("size", L, tier)) for L in SCALE_SIZES + (SCALE_SIZES_THOROUGH if tier != "quick" else []))}}}
 
 
 def assumptions():
@@ -116,6 +143,10 @@ def assumptions():
             "a paragraph, and iteration ends there - Dsc.iter_paragraphs('A:\\n\\n#cm\\n\\nA:\\n') yields one paragraph "
             "where Deb822.iter_paragraphs yields two.  The statement's multi-paragraph clause is about "
             "Deb822.iter_paragraphs; whether it binds the armor-scanning classes is doubtful, so the case is not demanded",
+            "ladders: paragraphs and documents are generated from the description stored in the case; the oracle is that of "
+            "the single-paragraph resp. multi-paragraph pass; a lone CR is not placed inside values here (it is a line "
+            "boundary for str input and not for file input, and not printable text in the sense of the quantifier); "
+            "dump(fd) / str() / bytes() must read back to the paragraph's fields (their text is not compared with dump())",
             "long lines: the statement puts no bound on the length of a line; lengths are those of the physical line "
             "'Name: first line' resp. ' continuation' without its newline (8190..8193 bracket a cut after 8192 units "
             "whether or not the newline is counted); 'bytes' fills make the UTF-8 encoded line exactly L bytes long "
@@ -1089,6 +1120,7 @@ def units(tier, seed):
     ns = len(sweep_pars())
     out += [{"kind": "sweep", "lo": i, "hi": min(ns, i + SWEEP_CHUNK)} for i in range(0, ns, SWEEP_CHUNK)]
     out += [{"kind": "long", "L": L} for L in long_lengths(tier)]
+    out += scale_units(tier)
     out += [{"kind": "blank", "lead": lead} for lead in blank_seqs(0, 2)]
     nr = len(route_docs(tier, seed))
     out += [{"kind": "routes", "lo": i, "hi": min(nr, i + ROUTE_CHUNK)} for i in range(0, nr, ROUTE_CHUNK)]
@@ -1099,6 +1131,8 @@ def units(tier, seed):
 
 
 def unit_cost(u, tier):
+    if u["kind"] == "scale":
+        return 1 + {"fields": 4, "cont": 4, "pars": 8, "size": 0.01}[u["family"]] * u["arg"] / 100.0
     if u["kind"] == "long":
         return 4 + u["L"] // 4096
     if tier != "quick" and u["kind"] == "multi3":
@@ -1128,6 +1162,23 @@ def run_unit(u, tier, seed):
         if len(par) > 1 or "\n" in par[0][1]:
             part.nontrivial += 1
 
+    if u["kind"] == "scale":
+        case = None
+        for case in scale_cases(u["family"], u["arg"], tier):
+            case = dict(case, seed=seed)
+            bad, n = run_scale(case)
+            part.states += 1
+            part.transitions += n
+            part.traces += n
+            part.evaluations += n
+            part.nontrivial += 1
+            for sig, exp, obs in bad:
+                part.violation(sig, case, exp, obs, rank=300000 + u["arg"])
+            if not bad:
+                part.outcomes[scale_family(case)] += 1
+            part.extra["%s ladder cases" % u["family"]] += 1
+        part.sample(case)
+        return part
     if u["kind"] == "single1":
         vals = values(tier, seed, u["first"])
         for v in vals:
@@ -1230,7 +1281,202 @@ def run_unit(u, tier, seed):
     return part
 
 
+# ------------------------------------------------------------------------------------------------ beyond the small scope
+# Count ladders (fields per paragraph, continuation lines per value, paragraphs per document) and a size ladder with
+# content placed at block boundaries.  Every case is generated from the compact description stored in it.
+SCALE_SMALL = list(range(1, 41))
+SCALE_BIG = [63, 64, 65, 100, 127, 128, 129, 255, 256, 257, 999, 1000, 1001, 1025, 2500, 2501, 5000]
+SCALE_FIELDS_BIG = [n for n in SCALE_BIG if n <= 1025]
+SCALE_PARS_BIG = [n for n in SCALE_BIG if n <= 1025]
+SCALE_SIZES = [997, 998, 999, 1000, 4095, 4096, 4097, 16383, 16384, 16385, 65535, 65536, 65537, 131072]
+SCALE_SIZES_THOROUGH = [131071, 131073, 262143, 262144, 262145]
+SCALE_BLOCKS = [4096, 16384, 65536, 131072, 262144]
+SCALE_TOKENS = [("blank", " "), ("field", " e: f"), ("colon", ":"), ("line-break", "\n "), ("line-break-field", "\n e: f"),
+                ("two-byte", "é")]
+SCALE_TOKENS_CONT = ("field", "line-break", "two-byte")       # the tokens also placed in a long continuation line
+
+
+def scale_field(i, seed):
+    """the i-th field of a ladder paragraph: names of different shapes, values alternately single-line and multi-line"""
+    v = core.rep(seed, ["v", "q", "1", "Z"])
+    c = conts(seed)
+    name = ("F%d", "Long-Name-%d", "x%d", "a9-%d-b")[i % 4] % i
+    value = ("%s%d" % (v, i), ":x", "%s %d\n%s%d\n%s" % (v, i, c[0], i, c[i % len(c)]), "", "a:b", "\n%s" % c[(i // 4) % len(c)])[i % 6]
+    if not value and i % 12 == 3:
+        value = "#y"
+    return (name, value)
+
+
+def scale_par(desc, seed):
+    kind = desc["ladder"]
+    c = conts(seed)
+    if kind == "fields":
+        # n fields; the field "A" with the interesting value first / in the middle / last (None: no such field)
+        par = [scale_field(i, seed) for i in range(1, desc["n"] + 1)]
+        if desc.get("at") is not None:
+            par.insert({"first": 0, "middle": len(par) // 2, "last": len(par)}[desc["at"]], ("A", "a:b\n e: f\n .\n\tA: b"))
+        return par
+    if kind == "cont":
+        n, arr = desc["n"], desc["arr"]
+        lines = [c[0] + str(i) if arr != "cycle" else c[i % len(c)] for i in range(n)]
+        if isinstance(arr, (list, tuple)):
+            lines[{"first": 0, "middle": n // 2, "last": n - 1}[arr[1]]] = c[arr[0]]
+        first = firsts(seed)[desc["first"]]
+        par = [("A", "\n".join([first] + lines))]
+        return par if desc["shape"] == 0 else [("x1", "y")] + par + [("a9", "w\n d")]
+    if kind == "size":
+        L, a = desc["L"], core.rep(seed, ["x", "q", "1", "Z"])
+        # the dump is "A: " + value + newline: offsets are those of the dump; the long physical line is L characters long
+        if desc["shape"] == "first":
+            text = "A: " + a * (L - 3)
+        else:
+            text = "A: v\n " + a * (L - 1)
+        if desc["filler"] == "words":
+            body = ((a * 7 + " ") * (len(text) // 8 + 1))[:len(text) - 7]
+            text = text[:6] + body[:-1] + a
+        if desc["token"] is not None:
+            t, p = dict(SCALE_TOKENS)[desc["token"]], desc["at"]
+            text = text[:p] + t + text[p + len(t):]
+        return [("A", text[3:])] if not desc.get("second") else [("A", text[3:]), ("x1", "y\n d")]
+    raise AssertionError(desc)
+
+
+def scale_doc(desc, seed):
+    """n paragraphs: one-field and multi-field paragraphs alternating, one long-ish paragraph first / middle / last"""
+    n = desc["n"]
+    pars = []
+    for i in range(n):
+        pars.append([scale_field(i + 1, seed)] if i % 3 == 0 else [scale_field(i + 1, seed), scale_field(i + 2, seed)] if i % 3 == 1 else
+                    [("A", "%d" % i), scale_field(i + 3, seed), ("Long-Name", "k\n l")])
+    if desc.get("at") is not None:
+        pars[{"first": 0, "middle": n // 2, "last": n - 1}[desc["at"]]] = [scale_field(i, seed) for i in range(1, 9)]
+    return pars
+
+
+def scale_places(L, shape, tname):
+    """offsets in the dump where the token is put: behind the start of the long line, at its very end, and around every
+    block boundary inside: starting at b-1, b, b+1 and ending at b"""
+    t = dict(SCALE_TOKENS)[tname]
+    start = 3 if shape == "first" else 6
+    end = start + (L - 3 if shape == "first" else L - 1)
+    out = [start + 2, end - len(t) - 1]
+    for b in SCALE_BLOCKS:
+        out += [b - 1, b, b + 1, b - len(t)]
+    seen = []
+    for p in out:
+        if start + 2 <= p and p + len(t) <= end - 1 and p not in seen:
+            seen.append(p)
+    return seen
+
+
+def scale_cases(fam, arg, tier):
+    """the cases of one rung, simplest first.  The small counts / sizes get the full arrangement; the large ones a
+    reduced one (a case costs time proportional to its size)"""
+    out = []
+    big = arg > 40
+    if fam == "fields":
+        for at in (None, "middle") if big else (None, "first", "middle", "last"):
+            out.append({"kind": "scale", "gen": {"ladder": "fields", "n": arg, "at": at}})
+    elif fam == "cont":
+        if big:
+            arrs = ["plain", "cycle", [3, "middle"], [5, "last"], [7, "first"]]
+        else:
+            arrs = ["plain", "cycle"] + [[k, w] for k in (3, 4, 5, 7) for w in (("first",) if arg == 1 else ("first", "last") if arg == 2
+                                                                              else ("first", "middle", "last"))]
+        for arr in arrs:
+            for first, shape in ((1, 0),) if big else ((1, 0), (2, 1)) if arg % 2 else ((0, 0), (2, 1)):
+                out.append({"kind": "scale", "gen": {"ladder": "cont", "n": arg, "arr": arr, "first": first, "shape": shape}})
+    elif fam == "pars":
+        for at in (None, "middle") if big else (None, "first", "middle", "last"):
+            for sep in ("\n",) if big else ("\n", "\n\n"):
+                out.append({"kind": "scale-doc", "gen": {"ladder": "pars", "n": arg, "at": at}, "sep": sep})
+    else:
+        L = arg
+        huge = L >= 65535
+        for shape in ("first", "cont"):
+            for filler in ("solid",) if huge else ("solid", "words"):
+                out.append({"kind": "scale", "gen": {"ladder": "size", "L": L, "shape": shape, "filler": filler, "token": None, "at": None}})
+            for tname, _t in SCALE_TOKENS:
+                if shape == "cont" and tname not in SCALE_TOKENS_CONT:
+                    continue
+                if huge and (tname not in SCALE_TOKENS_CONT or shape == "cont" and tname != "line-break"):
+                    continue
+                places = scale_places(L, shape, tname)
+                if huge:
+                    # around the largest block boundary inside only
+                    b = max(b for b in SCALE_BLOCKS if b <= L + 1)
+                    places = [p for p in places if abs(p - b) <= len(_t)]
+                for p in places:
+                    out.append({"kind": "scale", "gen": {"ladder": "size", "L": L, "shape": shape, "filler": "solid", "token": tname,
+                                                         "at": p, "second": p % 2 == 1}})
+    return out
+
+
+def scale_family(case):
+    g = case["gen"]
+    if g["ladder"] == "size":
+        return "size/%s/%s" % (g["shape"], g["token"] or "filler")
+    return "ladder/" + g["ladder"]
+
+
+def check_dump_fd(par):
+    """dump(fd) in binary and in text mode, and str() / bytes(): their text read back gives the paragraph's fields"""
+    from debian.deb822 import Deb822
+    d = Deb822()
+    for k, v in par:
+        d[k] = v
+    want = [(k, v) for k, v in par]
+    bad = []
+    for name in ("dump-fd-binary", "dump-fd-text", "str", "bytes"):
+        try:
+            if name == "dump-fd-binary":
+                fd = io.BytesIO()
+                d.dump(fd)
+                src = fd.getvalue()
+            elif name == "dump-fd-text":
+                fd = io.StringIO()
+                d.dump(fd, text_mode=True)
+                src = fd.getvalue()
+            else:
+                src = str(d) if name == "str" else bytes(d)
+            got = list(Deb822(src).items())
+        except Exception as e:
+            bad.append(("deb822/%s/raises" % name, want, "%s: %s" % (type(e).__name__, e)))
+            continue
+        if got != want:
+            bad.append(("deb822/%s/read-back" % name, want, got))
+    return bad, 4
+
+
+def run_scale(case):
+    """-> (violations, executions)"""
+    fam = scale_family(case)
+    if case["kind"] == "scale-doc":
+        bad, n = check_multi(scale_doc(case["gen"], case["seed"]), case["sep"])
+    else:
+        par = scale_par(case["gen"], case["seed"])
+        bad, n = check_single(par, False, ARMOR_HEADERS[:1])
+        b2, n2 = check_dump_fd(par)
+        bad, n = bad + b2, n + n2
+    return [(fam + "/" + sig.split("/", 1)[1], squeeze(_brief(exp)), squeeze(_brief(obs))) for sig, exp, obs in bad], n
+
+
+def _brief(x):
+    t = x if isinstance(x, str) else repr(x)
+    return t if len(t) <= 1500 else t[:700] + " ...<%d characters>... " % (len(t) - 1400) + t[-700:]
+
+
+def scale_units(tier):
+    out = [{"kind": "scale", "family": "fields", "arg": n} for n in SCALE_SMALL + SCALE_FIELDS_BIG]
+    out += [{"kind": "scale", "family": "cont", "arg": n} for n in SCALE_SMALL + SCALE_BIG]
+    out += [{"kind": "scale", "family": "pars", "arg": n} for n in SCALE_SMALL + SCALE_PARS_BIG]
+    out += [{"kind": "scale", "family": "size", "arg": L} for L in SCALE_SIZES + (SCALE_SIZES_THOROUGH if tier != "quick" else [])]
+    return out
+
+
 def replay(case):
+    if case["kind"] in ("scale", "scale-doc"):
+        return run_scale(case)[0]
     if case["kind"] in ("long", "longdoc"):
         return run_long(case)[0]
     if case["kind"] == "single":
